@@ -1,6 +1,8 @@
 package types
 
 import (
+	"unicode/utf8"
+
 	errorsmod "cosmossdk.io/errors"
 	sdk "github.com/cosmos/cosmos-sdk/types"
 	sdkerrors "github.com/cosmos/cosmos-sdk/types/errors"
@@ -110,6 +112,11 @@ func (msg *MsgPrevote) ValidateBasic() error {
 	_, err = sdk.ValAddressFromBech32(msg.Validator)
 	if err != nil {
 		return errorsmod.Wrapf(sdkerrors.ErrInvalidAddress, "invalid validator address (%s)", err)
+	}
+
+	// the hash is stored as given and exported to the JSON genesis
+	if !utf8.ValidString(msg.Hash) {
+		return errorsmod.Wrapf(sdkerrors.ErrInvalidRequest, "prevote hash is not valid UTF-8")
 	}
 
 	return nil
